@@ -1193,7 +1193,7 @@ def reshape(t, shape):
         # split leading axis: (A*B, ...) -> (A, B, ...)
         a, b = tgt[0], tgt[1]
         if isinstance(a, int) and a == -1:
-            raise Unsupported("reshape split with -1")
+            return _reshape_generic(t, tgt)
         if isinstance(b, int) and b == -1:
             # x.reshape(A, -1): the second extent is len(x) / A (NumPy: must divide exactly)
             b = exact_quotient(t.shape[0], a)
@@ -1217,7 +1217,53 @@ def reshape(t, shape):
                     return t.rows(C.to_z3(C.binop("+", C.binop("*", bidx[0], b), bidx[1])), *bidx[2:])
 
             return Tensor(tuple(tgt), fn, t.sort, t.gdeps, rows=rows)
-    raise Unsupported(f"reshape {t.shape} -> {shape}")
+    return _reshape_generic(t, tgt)
+
+
+def _reshape_generic(t, tgt):
+    """row-major reshape through the flat index (NumPy semantics): element o of
+    the result is element unravel(ravel(o, new_shape), old_shape) of t.  A single
+    -1 extent is total / (product of the others); when that quotient is not
+    decided syntactically a fresh extent d with d * rest == total is introduced
+    (NumPy raises when the division is not exact: that path is not modelled)."""
+    tgt = list(tgt)
+    total = 1
+    for d in t.shape:
+        total = C.binop("*", total, d)
+    known = 1
+    for d in tgt:
+        if not (isinstance(d, int) and d == -1):
+            known = C.binop("*", known, d)
+    if any(isinstance(d, int) and d == -1 for d in tgt):
+        q = exact_quotient(norm_dim(total), norm_dim(known)) if not isinstance(known, int) or known != 1 else norm_dim(total)
+        if q is None:
+            if isinstance(total, int) and isinstance(known, int):
+                raise ShapeError(f"cannot reshape array of shape {t.shape} into {tuple(tgt)}")
+            pst = st()
+            q = Sym(pst.fresh("reshape_extent", INT))
+            pst.assume(z3.And(q.z >= 0, q.z * C.to_z3(known) == C.to_z3(total)))
+        tgt = [q if (isinstance(d, int) and d == -1) else d for d in tgt]
+    elif isinstance(total, int) and isinstance(known, int) and total != known:
+        raise ShapeError(f"cannot reshape array of shape {t.shape} into {tuple(tgt)}")
+    tgt = tuple(norm_dim(d) for d in tgt)
+    in_shape = t.shape
+
+    def fn(*o):
+        flat = 0
+        for k, d in enumerate(tgt):
+            flat = C.binop("+", C.binop("*", flat, d), o[k])
+        idx = []
+        rem = flat
+        for k in range(len(in_shape) - 1, -1, -1):
+            if k == 0:
+                idx.append(rem)
+            else:
+                idx.append(C.binop("%", rem, in_shape[k]))
+                rem = C.binop("//", rem, in_shape[k])
+        idx.reverse()
+        return t.at(*idx)
+
+    return Tensor(tgt, fn, t.sort, t.gdeps)
 
 
 def flatten(t):
@@ -1431,6 +1477,23 @@ def at_set(t, idx, v, mode="set"):
         r = _scatter_rows(t, idx, vt, mode)
         if r is not None:
             return r
+    if all(isinstance(i, (Tensor, list)) for i in idx) and len(idx) == t.ndim and mode in ("add", "set"):
+        # x.at[I0, I1, ...].add(v): scatter with 1-D index vectors; duplicates ACCUMULATE for add
+        # (jax semantics); for set the last writer wins (modelled for add only when duplicates matter)
+        its = [as_tensor(i) for i in idx]
+        L = its[0].shape[0]
+        if any(i.ndim != 1 or not dim_eq(i.shape[0], L) for i in its):
+            raise Unsupported("scatter with index arrays of different shapes")
+        vten = as_tensor(vt)
+        if mode == "set":
+            raise Unsupported("at[index arrays].set")
+
+        def fn(*o):
+            contrib = Tensor((L,), lambda k: C.ite(C.Sym(C.conj([C.compare("==", its[a].at(k), o[a]) for a in range(t.ndim)])),
+                                                  vten.at(k) if vten.ndim == 1 else vten.at(), 0), join_sorts([t.sort, vten.sort]))
+            return C.binop("+", t.at(*o), reduce_axis(contrib, 0, "sum"))
+
+        return Tensor(t.shape, fn, join_sorts([t.sort, vten.sort]), t.gdeps | vten.gdeps)
     raise Unsupported(f"at[{idx}].{mode}")
 
 
